@@ -56,6 +56,16 @@ COMPILE_FAULTS = [(n_, t_, (t_.rindex(m_) if m_ else 0), w_) for n_, t_, m_, w_ 
     ("call-expression", "<%call expr=\"f(a b)\"></%call>", None, "linecol"),
     ("text-filter", "<%text filter=\"a b\">x</%text>", None, "linecol"),
     ("tag-name-colon-only", "<%:/>", None, "linecol"),
+    # Python faults on the continuation line of a control line continued with a backslash: the line holding the fault
+    ("if-continuation-line-fault", "\n% if a and \\\n   b +* 2:\nx\n% endif\n", "b +*", "line"),
+    ("elif-continuation-line-fault", "\n% if a:\n% elif y and \\\n   z +* 2:\nx\n% endif\n", "z +*", "line"),
+    ("for-continuation-line-fault", "\n% for i in \\\n   [1, +* 2]:\nx\n% endfor\n", "[1, +*", "line"),
+    ("except-continuation-line-fault", "\n% try:\nx\n% except (A, \\\n   B +* 2):\ny\n% endtry\n", "B +*", "line"),
+    # a clause keyword that does not belong to the open block
+    ("else-inside-with", "\n% with a as b:\n% else:\nx\n% endwith\n", "% else", "line"),
+    ("finally-inside-if", "\n% if a:\n% finally:\nx\n% endif\n", "% finally", "line"),
+    ("except-inside-for", "\n% for a in b:\n% except E:\nx\n% endfor\n", "% except", "line"),
+    ("elif-inside-while", "\n% while a:\n% elif b:\nx\n% endwhile\n", "% elif", "line"),
     ("namespace-call-without-def-name", "<%a:/>", None, "linecol"),
 ]]
 
